@@ -433,6 +433,29 @@ def main(argv):
     t_start = time.time()
     jobs = [j for j in load_jobs() if prop in j['props'] and (a.tier == 'thorough' or (j.get('tier', 'quick') == 'quick' and (j.get('quick_for') is None or prop in j['quick_for'])))]
     if a.all_props: jobs = [j for j in load_jobs() if a.tier == 'thorough' or j.get('tier', 'quick') == 'quick']
+    # thorough tier: families of case keys with hundreds of members (substitution, callback-issued requests, triples, two-round
+    # histories) are SAMPLED per VERIF_SEED so that the tier finishes in under an hour per property; VERIF_THOROUGH_CAP=0 runs the
+    # complete key space (hours per property).  Jobs of the quick tier are always kept.
+    sampled = {}
+    cap = int(os.environ.get('VERIF_THOROUGH_CAP', '40') or 0)
+    if a.tier == 'thorough' and cap > 0 and not a.all_props:
+        import random
+        def fam(i):
+            m = re.match(r'^(C\.[a-z_0-9]+\.[a-z0-9_]+)', i) or re.match(r'^([A-Z][0-9]*\.[a-z_0-9]+)', i)
+            return m.group(1) if m else i
+        def is_quick(j): return j.get('tier', 'quick') == 'quick' and (j.get('quick_for') is None or prop in j['quick_for'])
+        groups = {}
+        for j in jobs:
+            if not is_quick(j): groups.setdefault(fam(j['id']), []).append(j)
+        drop = set()
+        for f, js in groups.items():
+            if len(js) > cap:
+                rnd = random.Random('%s/%s/%d' % (prop, f, seed))
+                keep = set(id(x) for x in rnd.sample(js, cap))
+                drop |= set(id(x) for x in js if id(x) not in keep)
+                sampled[f] = [cap, len(js)]
+        jobs = [j for j in jobs if id(j) not in drop]
+    a.sampled = sampled
     if a.jobs: jobs = [j for j in jobs if re.search(a.jobs, j['id'])]
     if a.list:
         for j in jobs: print(j['id'], j['tu'], j.get('defs'), j['entry'])
@@ -581,12 +604,13 @@ def run_check(prop, a, jobs, findings, scratch, seed, t_start):
         print('debug run (%d jobs, %d obligations, %d discharged, %d canaries, cbmc %.1fs): no evidence written' % (len(jobs), total, discharged, canaries, cbmc_s))
         for j, r in zip(jobs, results): print('  ', j['id'], 'cbmc %.1fs' % r['times'].get('cbmc', 0), r['error'] or '')
         return rc
-    write_evidence(prop, a.tier, seed, jobs, results, tus, carriers, tv, total, discharged, canaries, samples, known, vio_out, problems, undecided, solver_s, cbmc_s, time.time() - t_start, findings)
+    write_evidence(prop, a.tier, seed, jobs, results, tus, carriers, tv, total, discharged, canaries, samples, known, vio_out, problems, undecided, solver_s, cbmc_s, time.time() - t_start, findings, getattr(a, 'sampled', None))
     print('%s %s: %d jobs, %d obligations, %d discharged, %d known-finding obligations, %d violations, %d canaries fired, %.0fs' %
           (prop, a.tier, len(jobs), total, discharged, len(known), len(vio_out), canaries, time.time() - t_start))
     return rc
 
-def write_evidence(prop, tier, seed, jobs, results, tus, carriers, tv, total, discharged, canaries, samples, known, vio_out, problems, undecided, solver_s, cbmc_s, wall, findings):
+def write_evidence(prop, tier, seed, jobs, results, tus, carriers, tv, total, discharged, canaries, samples, known, vio_out, problems, undecided, solver_s, cbmc_s, wall, findings, sampled_families=None):
+    sampled_families = sampled_families or {}
     meta = {}
     mp = os.path.join(PROOFS, 'meta.json')
     common = []
@@ -607,7 +631,8 @@ def write_evidence(prop, tier, seed, jobs, results, tus, carriers, tv, total, di
                       'solver_s': round(r['times'].get('solver', 0), 2), 'obligations': len([o for o in r['obligations'] if prop in o['props'] or 'UNWIND' in o['props']]) + (r.get('bulk_ok', 0) if prop == 'C11' else 0),
                       'backend': r.get('backend_used', j.get('backend', 'sat')), 'engine': 'path-wise' if j.get('paths') else 'merging'} for j, r in zip(jobs, results)][:400],
             'case_keys': sorted(set(j['case_key'] for j in jobs if j.get('case_key')))[:400],
-            'exhaustive': bool(meta.get('exhaustive_case_split', False)),
+            'exhaustive': bool(meta.get('exhaustive_case_split', False)) and not sampled_families,
+            'sampled_families': sampled_families,
             'bounded': bounded,
             'canaries_fired': canaries,
             'translation_validation': [{'tu': t, 'defs': d, 'hashes': h} for t, d, h in tv],
